@@ -159,27 +159,29 @@ def testsGet : List (Text × Text) → Text → Option Text
   | (k', v) :: m, k => if k' = k then some v else testsGet m k
 
 /-- the scanning loop of `examineSnaps` over one file -/
-def exScan (o : Oracles) (registered skipped : List Text) (runOnly : Text) :
+def exScan (o : Oracles) (registered skipped : List Text) (runOnly : Text) (update : Bool) :
     List Line → ScanMode → ScanState → ScanState
   | [], _, st => st
   | l :: ls, .skipping, st =>
-    if l = endSeq then exScan o registered skipped runOnly ls .outer st
-    else exScan o registered skipped runOnly ls .skipping st
+    if l = endSeq then exScan o registered skipped runOnly update ls .outer st
+    else exScan o registered skipped runOnly update ls .skipping st
   | l :: ls, .collecting id data, st =>
     if l = endSeq then
-      exScan o registered skipped runOnly ls .outer { st with tests := testsSet st.tests id data }
-    else exScan o registered skipped runOnly ls (.collecting id (data ++ l ++ [nl])) st
+      exScan o registered skipped runOnly update ls .outer { st with tests := testsSet st.tests id data }
+    else exScan o registered skipped runOnly update ls (.collecting id (data ++ l ++ [nl])) st
   | l :: ls, .outer, st =>
     match getTestID l with
-    | none => exScan o registered skipped runOnly ls .outer st
+    | none => exScan o registered skipped runOnly update ls .outer st
     | some id =>
       let st := { st with testIDs := st.testIDs ++ [id] }
-      if registered.contains id then exScan o registered skipped runOnly ls (.collecting id []) st
+      if registered.contains id then exScan o registered skipped runOnly update ls (.collecting id []) st
       else match testSkipped o skipped id runOnly with
         | none => { st with missing := true }
-        | some true => exScan o registered skipped runOnly ls (.collecting id []) st
+        | some true => exScan o registered skipped runOnly update ls (.collecting id []) st
         | some false =>
-          exScan o registered skipped runOnly ls .skipping
+          -- reported in every mode; dropped (skipped) only when deleting is allowed, otherwise its
+          -- body is collected like a kept entry's, so that a sort-only rewrite re-emits it
+          exScan o registered skipped runOnly update ls (if update then .skipping else .collecting id [])
             { st with obsolete := st.obsolete ++ [id], hasDiffs := true }
 
 /-- what the rewrite loop prints for one id -/
@@ -208,7 +210,7 @@ def examineSnaps (o : Oracles) (fs : FS) (cleanup : List (RegKey × Nat)) (skipp
         | some registered =>
           let ls := scan content
           if ls.any getTestIDPanics then .panics else
-          let st := exScan o registered skipped runOnly ls .outer {}
+          let st := exScan o registered skipped runOnly update ls .outer {}
           if st.missing then .missingOracle else
           let shouldSort := sort && !(isSortedNat st.testIDs)
           let shouldUpdate := update && st.hasDiffs
